@@ -112,3 +112,7 @@ SUITES["C20"]["quick"] += [{"family": "mon", "mode": "", "share": 1}, {"family":
 SUITES["C20"]["thorough"] += [{"family": "world", "mode": "pack", "share": 1}, {"family": "world", "mode": "select", "share": 1}, {"family": "fsm", "mode": "nego", "share": 1}, {"family": "gr", "mode": "llgr", "share": 1}, {"family": "wire", "mode": "malformed", "share": 1}, {"family": "rpki", "mode": "corrupt", "share": 1}, {"family": "mon", "mode": "", "share": 2}, {"family": "rpki", "mode": "", "share": 1}, {"family": "vpn", "mode": "", "share": 1}, {"family": "reset", "mode": "", "share": 1},
                               {"family": "mon", "mode": "", "share": 1, "race": True}, {"family": "rpki", "mode": "", "share": 1, "race": True}]
 PROP_INFO["C20"]["rule"] = PROP_INFO["C20"]["rule"].replace("all simulation families (world, fsm, gr, wire;", "all simulation families (world, fsm, gr, wire, mon, rpki, vpn, reset;")
+
+# a slice of the quick tier runs the race-detector build on the same seeded schedules
+SUITES["C20"]["quick"] += [{"family": "world", "mode": "", "share": 2, "race": True}]
+PROP_INFO["C20"]["budget"] = {"quick": 90, "thorough": 1800}
